@@ -436,6 +436,13 @@ def run(tier, seed):
         "there; it is not reproduced by this check (needs the real cargo-nextest binary: end-to-end rig)",
     ]
     nontrivial = sum(1 for l in lists if len(l) >= 2) + sum(1 for c in cases if c["raw"] != 0)
+    # end-to-end stage: generated multi-test runs of the real cargo-nextest over the scripted puppet
+    # workspace, judged by this property's oracle (lib/e2e_general.py)
+    try:
+        import e2e_general
+        e2e_general.stage(chk, PROP, tier, seed)
+    except RuntimeError as ex:
+        chk.violation("broken-obligation", "e2e-build", dict(error=str(ex)[-3000:]), no_input=True)
     return chk.finish(
         gate, "make -C coq Properties/C03.vo && coqc gen/assump_C03.v (Print Assumptions)",
         ["Coq 8.16.1 kernel + vm_compute",
